@@ -201,6 +201,7 @@ Section StInd.
   Hypothesis Hid : forall x, P (SId x).
   Hypothesis Hlit : forall l, P (SLit l).
   Hypothesis Hneglit : forall z, P (SNegLit z).
+  Hypothesis Hnegdbl : forall t, P (SNegDbl t).
   Hypothesis Hsel : forall a f, P a -> P (SSel a f).
   Hypothesis Hidx : forall a i, P a -> P i -> P (SIdx a i).
   Hypothesis Hmcall : forall a f args, P a -> Forall P args -> P (SMCall a f args).
@@ -223,6 +224,7 @@ Section StInd.
     | SId x => Hid x
     | SLit l => Hlit l
     | SNegLit z => Hneglit z
+    | SNegDbl t => Hnegdbl t
     | SSel a f => Hsel a f (st_ind' a)
     | SIdx a i => Hidx a i (st_ind' a) (st_ind' i)
     | SMCall a f args => Hmcall a f args (st_ind' a) (many args)
@@ -283,7 +285,7 @@ Qed.
 (** heads: a rendering starts with a token that starts a primary, or a prefix operator *)
 Definition prim_start (t : tk) : bool :=
   match t with
-  | TIdent _ | TInt _ | TUint _ | TString _ | TBytes _ | TTrue | TFalse | TNull | TLParen | TLBracket | TLBrace => true
+  | TIdent _ | TInt _ | TUint _ | TFloat _ | TString _ | TBytes _ | TTrue | TFalse | TNull | TLParen | TLBracket | TLBrace => true
   | _ => false
   end.
 Definition hd_prim (ts : list tk) : Prop := match ts with t :: _ => prim_start t = true | [] => False end.
@@ -296,7 +298,7 @@ Proof. destruct a; [contradiction|exact (fun H => H)]. Qed.
 Lemma hd_prim_expr a : hd_prim a -> hd_expr a.
 Proof. destruct a; [contradiction|]. cbn. auto. Qed.
 Lemma lit_tk_start l : prim_start (lit_tk l) = true.
-Proof. destruct l as [z|z|[]| |t s|t b]; reflexivity. Qed.
+Proof. destruct l as [z|z|[]| |t s|t b|t]; reflexivity. Qed.
 
 Lemma tk7_prim t : hd_prim (tk_at 7 t).
 Proof.
@@ -704,7 +706,7 @@ Proof.
     exists (S (S n)). intros [|[|f]] Hf; try lia. rewrite (tk_raw 7 (SLit l)) by (cbn; lia). cbn [raw app].
     rewrite u_member.
     assert (E : p_primary (S f) (lit_tk l :: R) = POk (ELit (lit_val l)) R).
-    { rewrite u_primary. destruct l as [z|z|[]| |t s|t b]; cbn [lit_tk lit_val wf_lit] in *; try reflexivity.
+    { rewrite u_primary. destruct l as [z|z|[]| |t s|t b|t]; cbn [lit_tk lit_val wf_lit] in *; try reflexivity.
       - apply andb_prop in W as [W0 W1]. cbn [literal_of].
         pose proof (int_literal_dec z W1) as E. replace (z <? 0)%Z with false in E by lia.
         replace (Z.abs z) with z in E by lia. now rewrite E.
@@ -712,7 +714,8 @@ Proof.
       - cbn [literal_of]. destruct (decode_string t) as [s'|]; [|discriminate].
         apply str_eqb_eq in W. now subst s'.
       - cbn [literal_of]. destruct (decode_bytes t) as [b'|]; [|discriminate].
-        apply str_eqb_eq in W. now subst b'. }
+        apply str_eqb_eq in W. now subst b'.
+      - cbn [literal_of]. destruct (double_literal false t); [reflexivity|discriminate]. }
     rewrite E. apply H. lia.
   - (* negative integer literal *)
     apply andb_prop in W as [W0 W1].
@@ -723,6 +726,14 @@ Proof.
       rewrite u_unary_minus. cbn [is_number_tok]. rewrite u_member, u_primary. cbn [literal_of].
       pose proof (int_literal_dec z W1) as E. rewrite W0 in E. replace (Z.abs z) with (- z)%Z in E by lia.
       rewrite E. cbn [option_map]. now apply postfix_stop. }
+    apply good_low; [cbn; lia|exact HP|cbn; intros; discriminate|cbn; intros; discriminate|cbn; intros; discriminate].
+  - (* negative double literal *)
+    assert (HP : Par (SNegDbl t)).
+    { apply par_all; [|cbn; lia]. intros rest Hs. cbn [prec] in Hs. cbn [prec p_at raw app].
+      assert (S7 : stops 7 rest) by (eapply stops_le; [|exact Hs]; lia).
+      exists 3. intros [|[|[|f]]] Hf; try lia.
+      rewrite u_unary_minus. cbn [is_number_tok]. rewrite u_member, u_primary. cbn [literal_of ast].
+      destruct (double_literal true t) as [d|]; [|now elim W]. cbn [option_map]. now apply postfix_stop. }
     apply good_low; [cbn; lia|exact HP|cbn; intros; discriminate|cbn; intros; discriminate|cbn; intros; discriminate].
   - (* field selection *)
     destruct (IHt W) as (_ & _ & _ & _ & Ka).
